@@ -1333,6 +1333,72 @@ def r13(k: Kit) -> None:
               'that version', fi.loc(fi.node))
 
 
+def sftp_init_guarded(k: Kit, rule: str) -> None:
+    """The version exchange ends the SFTP session, not the connection."""
+    from ..index import parent
+    rep = k.rep
+
+    def enclosing_handlers(fi, node):
+        out = []
+        x = node
+        while x is not None and x is not fi.node:
+            x = parent(x)
+            if isinstance(x, ast.Try):
+                for h in x.handlers:
+                    out += [dotted(t) for t in (
+                        h.type.elts if isinstance(h.type, ast.Tuple)
+                        else [h.type])] if h.type is not None else ['*']
+        return set(out)
+    for q, side in (('sftp.SFTPServerHandler.run', 'server'),
+                    ('sftp.SFTPClientHandler.start', 'client')):
+        fi = k.func(q)
+        calls = sorted([c for c in ast.walk(fi.node)
+                        if is_call(c, '_log_extensions', 'self') and c.args],
+                       key=lambda c: c.lineno)
+        # the extensions received from the peer (the server also logs the
+        # ones it is about to send, which it built itself)
+        logs = [c for c in calls if 'rcvd' in (dotted(c.args[0]) or '')
+                or 'recv' in (dotted(c.args[0]) or '')] or calls[:1]
+        rep.floor(rule, f'{side} extension parse', len(logs), 1)
+        for c in logs:
+            hs = enclosing_handlers(fi, c)
+            rep.check('PacketDecodeError' in hs or '*' in hs, rule,
+                      key(fi, 'extension values parsed under the handler'),
+                      '_log_extensions runs inside the try that converts '
+                      'PacketDecodeError',
+                      f'the {side} parses the extension values of the '
+                      'version exchange outside any handler: a malformed '
+                      '`supported2` / `vendor-id` value raises '
+                      'PacketDecodeError out of the SFTP task - on the '
+                      'server that ends the whole SSH connection, on the '
+                      'client start_sftp_client() raises a bare ValueError '
+                      'subclass', fi.loc(c))
+    fi = k.func('sftp.SFTPServerHandler.run')
+    first = [c for c in ast.walk(fi.node) if is_call(c, 'recv_packet',
+                                                     'self')]
+    rep.floor(rule, 'initial receive', len(first), 1)
+    c0 = min(first, key=lambda c: c.lineno)
+    hs = enclosing_handlers(fi, c0)
+    rep.check(bool(hs & {'asyncio.IncompleteReadError', 'EOFError',
+                         'Exception', '*'}), rule,
+              key(fi, 'channel closed before FXP_INIT'),
+              'IncompleteReadError of the first receive is handled',
+              'a client that opens the sftp subsystem and closes the channel '
+              'without sending FXP_INIT makes the handler task die with '
+              'asyncio.IncompleteReadError: the server tears down the whole '
+              'connection (other sessions included) and SFTPServer.exit() '
+              'is never called', fi.loc(c0))
+
+
+def r14(k: Kit) -> None:
+    k.rep.rule('C14.R14', 'SFTP version exchange: both sides parse the '
+               'extension values inside the try that turns decode errors '
+               'into SFTPBadMessage, and the server also handles the channel '
+               'ending before FXP_INIT - a malformed or missing first '
+               'message ends that SFTP session with an error, nothing else')
+    sftp_init_guarded(k, 'C14.R14')
+
+
 def run(idx, rep, tier):
     k = Kit(idx, rep)
     rep.assumptions += NOT_DECIDED
@@ -1354,3 +1420,4 @@ def run(idx, rep, tier):
     r11(k)
     r12(k)
     r13(k)
+    r14(k)
